@@ -372,7 +372,7 @@ func (w *world) cloneChecks(K int, hist []Op) {
 	}()
 	base := observe(w.tree)
 	for k0 := 0; k0 < K; k0++ {
-		k := keyOff + k0
+		k := ukey(K, k0)
 		for _, del := range []bool{false, true} {
 			c := w.tree.Clone()
 			oc := observe(c)
@@ -435,10 +435,33 @@ func (w *world) cloneChecks(K int, hist []Op) {
 			c2 := w2.tree.Clone()
 			before := observe(c2).sb.String()
 			si2 := w2.tree.SafeIterator()
+			// snapshots from a bound, taken before the source changes
+			pk := probeKeys(K)
+			sif := make([]*ad.AvlIterator, len(pk))
+			for i, kb := range pk {
+				sif[i] = w2.tree.SafeIteratorFrom(kb)
+			}
 			if del {
 				w2.tree.Delete(k)
 			} else {
 				w2.tree.Insert(k)
+			}
+			for i, kb := range pk {
+				got := []int{}
+				for j := 0; sif[i].Ok() && j < K+3; j++ {
+					got = append(got, sif[i].Get())
+					sif[i].Next()
+				}
+				exp := []int{}
+				for _, v := range w.sorted() {
+					if v >= kb {
+						exp = append(exp, v)
+					}
+				}
+				if fmt.Sprint(got) != fmt.Sprint(exp) {
+					w.failf("clone|safeiterfrom-snapshot", "SafeIteratorFrom(%d) taken before a mutation yields %v, snapshot %v", kb, got, exp)
+					return
+				}
 			}
 			if observe(c2).sb.String() != before {
 				w.failf("clone|indep-clone", "mutating the source changed an earlier clone")
@@ -459,22 +482,25 @@ func (w *world) cloneChecks(K int, hist []Op) {
 	}
 }
 
-// probeKeys: every key of the universe and, where representable, its two outer neighbours
+// probeKeys: every key of the universe and, where representable, its two neighbours; the
+// extreme ints always (a bound may be further than MaxInt away from every key)
 func probeKeys(K int) []int {
-	r := []int{}
-	lo, hi := keyOff, keyOff+K-1
-	if lo > math.MinInt {
-		r = append(r, lo-1)
-	}
-	for k := lo; ; k++ {
-		r = append(r, k)
-		if k == hi {
-			break
+	m := map[int]bool{math.MinInt: true, math.MaxInt: true}
+	for k0 := 0; k0 < K; k0++ {
+		k := ukey(K, k0)
+		m[k] = true
+		if k > math.MinInt {
+			m[k-1] = true
+		}
+		if k < math.MaxInt {
+			m[k+1] = true
 		}
 	}
-	if hi < math.MaxInt {
-		r = append(r, hi+1)
+	r := []int{}
+	for k := range m {
+		r = append(r, k)
 	}
+	sort.Ints(r)
 	return r
 }
 
@@ -491,20 +517,49 @@ func build(hist []Op, nslot int) *world {
 // lower bounds <= 0; the re-find after a deletion adds 1 to the current key).
 var keyOff int
 
+// spread: when set, the universe is not contiguous but spans the whole int range
+// (keys further apart than MaxInt: differences of keys and bounds must not be formed)
+var spread bool
+
+func spreadKeys(K int) []int {
+	switch K {
+	case 3:
+		return []int{math.MinInt, 0, math.MaxInt}
+	case 4:
+		return []int{math.MinInt, -1, 1, math.MaxInt}
+	case 5:
+		return []int{math.MinInt, -1, 0, 1, math.MaxInt}
+	case 6:
+		return []int{math.MinInt, math.MinInt / 2, -1, 1, math.MaxInt / 2, math.MaxInt}
+	case 7:
+		return []int{math.MinInt, math.MinInt / 2, -1, 0, 1, math.MaxInt / 2, math.MaxInt}
+	}
+	panic("spreadKeys: unsupported universe size")
+}
+
+// ukey: the k-th key of the universe
+func ukey(K, k int) int {
+	if spread {
+		return spreadKeys(K)[k]
+	}
+	return keyOff + k
+}
+
 type Case struct {
-	Off   int  `json:"key_offset"`
-	K     int  `json:"universe"`
-	Slots int  `json:"iterator_slots"`
-	Hist  []Op `json:"history"`
+	Off    int  `json:"key_offset"`
+	K      int  `json:"universe"`
+	Slots  int  `json:"iterator_slots"`
+	Hist   []Op `json:"history"`
+	Spread bool `json:"spread_universe,omitempty"`
 }
 
 func enabled(w *world, K int) []Op {
 	ops := []Op{}
 	for k := 0; k < K; k++ {
-		ops = append(ops, Op{C: opInsert, K: keyOff + k})
+		ops = append(ops, Op{C: opInsert, K: ukey(K, k)})
 	}
 	for k := 0; k < K; k++ {
-		ops = append(ops, Op{C: opDelete, K: keyOff + k})
+		ops = append(ops, Op{C: opDelete, K: ukey(K, k)})
 	}
 	free := -1
 	for s := range w.its {
@@ -517,10 +572,16 @@ func enabled(w *world, K int) []Op {
 	if free >= 0 {
 		ops = append(ops, Op{C: opIter, S: free})
 		for k := 0; k < K; k++ {
-			ops = append(ops, Op{C: opIterFrom, K: keyOff + k, S: free})
+			ops = append(ops, Op{C: opIterFrom, K: ukey(K, k), S: free})
 		}
 	}
 	return ops
+}
+
+func exploreSpread(c *vf.Ctx, K, slots int) {
+	spread = true
+	defer func() { spread = false }()
+	explore(c, K, slots, 0)
 }
 
 func explore(c *vf.Ctx, K, slots, off int) {
@@ -540,8 +601,8 @@ func explore(c *vf.Ctx, K, slots, off int) {
 			for _, o := range enabled(w, K) {
 				idx++
 				hist := append(append([]Op{}, it.hist...), o)
-				cs := Case{off, K, slots, hist}
-				c.Guard(fmt.Sprintf("K=%d,off=%d|%s", K, off, o.C), int64(len(hist)), cs)
+				cs := Case{off, K, slots, hist, spread}
+				c.Guard(fmt.Sprintf("K=%d,off=%d,spread=%v|%s", K, off, spread, o.C), int64(len(hist)), cs)
 				n := build(hist, slots)
 				if c.Shard == 0 {
 					c.Trans(1)
@@ -590,8 +651,12 @@ func explore(c *vf.Ctx, K, slots, off int) {
 	if c.Shard == 0 {
 		c.States(int64(len(seen)))
 		c.Nontrivial(int64(len(seen)))
-		c.Count(fmt.Sprintf("bfs_depth_K%d_slots%d_off%d", K, slots, off), int64(depth))
-		c.Count(fmt.Sprintf("states_K%d_slots%d_off%d", K, slots, off), int64(len(seen)))
+		tag := fmt.Sprintf("K%d_slots%d_off%d", K, slots, off)
+		if spread {
+			tag = fmt.Sprintf("K%d_slots%d_spread", K, slots)
+		}
+		c.Count("bfs_depth_"+tag, int64(depth))
+		c.Count("states_"+tag, int64(len(seen)))
 	}
 }
 
@@ -611,13 +676,14 @@ func main() {
 		Level: "model_checking",
 		Rule: "explicit-state BFS to fixpoint over the real AvlTree with key universe {0..K-1}: every Insert/Delete/Iterator/IteratorFrom/Next from every reachable (tree shape, balance factors, live iterator node+value) state; " +
 			"a state is non-trivial/distinct by its canonical form (tree with values, balance factors, parent/deleted flags, iterator positions as tree paths); every transition is executed on the implementation by replaying the shortest history on a fresh tree",
-		Assume: []string{"keys outside {0..K-1} behave like keys inside (the code compares keys only)", "iterators that reached their end are not used again", "export overlay accessors are read-only"},
+		Assume: []string{"keys not in one of the explored universes ({0..K-1}, centred on 0, the K smallest / K largest ints, K keys spread over the whole int range) behave like keys inside (the code compares keys only)", "iterators that reached their end are not used again", "export overlay accessors are read-only"},
 		Run: func(c *vf.Ctx) {
 			// tree-only exploration reaches larger universes (a seeded change in the
 			// delete rebalancing needed 8 distinct keys: height-4 tree + a specific
 			// shape below a non-root node), live iterators multiply the state space
 			// universes: {0..K-1}; centred on zero (negative keys); the K largest and the
-			// K smallest ints (arithmetic on keys must not wrap)
+			// K smallest ints (arithmetic on keys must not wrap); spread over the whole int
+			// range (keys and bounds further apart than MaxInt)
 			if c.Thorough() {
 				explore(c, 13, 0, 0)
 				explore(c, 10, 1, 0)
@@ -626,6 +692,8 @@ func main() {
 				explore(c, 6, 2, -3)
 				explore(c, 6, 1, math.MaxInt-5)
 				explore(c, 6, 1, math.MinInt)
+				exploreSpread(c, 7, 1)
+				exploreSpread(c, 5, 2)
 			} else {
 				explore(c, 11, 0, 0)
 				explore(c, 7, 1, 0)
@@ -634,6 +702,8 @@ func main() {
 				explore(c, 4, 2, -2)
 				explore(c, 5, 1, math.MaxInt-4)
 				explore(c, 5, 1, math.MinInt)
+				exploreSpread(c, 5, 1)
+				exploreSpread(c, 4, 2)
 			}
 		},
 		Replay: func(c *vf.Ctx, raw json.RawMessage) {
@@ -643,6 +713,7 @@ func main() {
 				return
 			}
 			keyOff = cs.Off
+			spread = cs.Spread
 			w := build(cs.Hist, cs.Slots)
 			if _, bad := w.canon(); bad != "" {
 				w.failf(strings.SplitN(bad, ":", 2)[0], "%s", bad)
